@@ -94,7 +94,7 @@ SHAPE_AGNOSTIC = {"zip-inf", "zip-self", "interleave", "prefixes", "windows-2", 
                   "negate", "add-inf", "flatten"}
 LIST_ITEMS = {"zip-inf", "zip-self", "prefixes", "windows-2", "windows-3", "chunks-3", "chunks-2", "enumerate"}
 DATA_DEPENDENT = {"filter-'", "filter-F", "filter-3", "uniquify"}
-VALUE_FRIENDLY = {"behead", "slice-from-3", "prepend", "add-1", "sub-2", "increment", "decrement", "negate", "filter-'", "filter-F"}
+STREAM_PRESERVING = {"behead", "slice-from-3", "prepend"}  # the stream is still 1, 2, 3, ... up to a shift
 _CODE = {}
 
 
@@ -116,6 +116,7 @@ def check(comp, n, access, kind):
     """-> ('discard', why) | None | (sig, msg)"""
     need = demand(comp, n + 1 if access == "index" else max(n, 1))
     bound = 2 * need + 8
+    budget = 500_000 + 100_000 * need  # >= 10x the largest per-item cost measured on the pinned tree (filter through a lambda: ~7.6k line events per item)
     counter = [0]
     harness.reset_globals()
     ctx = harness.fresh_ctx()
@@ -125,10 +126,10 @@ def check(comp, n, access, kind):
     text = "".join(CATALOGUE[c][0] for c in comp) + (f"{n}Ẏ" if access == "take" else f"{n}i")
     sig = f"C14:{'+'.join(comp)}:{access}:{kind}"
     try:
-        r = harness.exec_py(_code(text), stack, ctx, budget=4_000_000, wall=60)
+        r = harness.exec_py(_code(text), stack, ctx, budget=budget, wall=120)
         if r.exc is None:
             # the prefix is finite: look at all of it (that is what 'taking the first n' means)
-            with harness.watchdog(60), harness.fuel(4_000_000):
+            with harness.watchdog(120), harness.fuel(budget):
                 out = norm(stack[-1], cap=500) if stack else None
             if isinstance(out, tuple) and out and out[0] == "prefix":
                 return (sig + ":not-finite", f"program {text!r} on the infinite {kind} source: the first {n} items are not a finite list")
@@ -155,7 +156,7 @@ def _valid(comp, kind):
             return False
         if i > 0 and comp[i - 1] in LIST_ITEMS and name not in SHAPE_AGNOSTIC:
             return False
-        if name in DATA_DEPENDENT and any(prev not in VALUE_FRIENDLY for prev in comp[:i]):
+        if name in DATA_DEPENDENT and any(prev not in STREAM_PRESERVING for prev in comp[:i]):
             # a filter / uniquify only has a linear demand on inputs it can keep finding items in:
             # after e.g. doubling, 'keep the odd ones' legitimately never yields anything
             return False
